@@ -11,7 +11,7 @@ CONSTANTS
   ThrW = 2
   MaxBlocks = 4
   MaxByz = 2
-  MaxRestarts = 1
+  MaxRestarts = 0
   Seed <- SeedDef
   Rank <- RankDef
 INVARIANT FinalitySafety
